@@ -4,6 +4,7 @@
 // C01 / C17 / C19 — HTTP/1 body framing: chunked automaton step lemmas (L1-L3), decode-loop glue
 // (L4), length/eof decoders, bounded whole runs.  See DESIGN.md §3 C01.
 use super::*;
+include!(concat!(env!("VERIF_HARNESS"), "/common/tracing_stub.rs"));
 use core::mem::forget;
 
 // ---------------------------------------------------------------------------------------------
@@ -440,6 +441,7 @@ fn whole_run(n: usize, cut: usize) {
 // ---- harness instances (generated).  One harness = one lemma at one CONCRETE buffer length, run for
 // a group of concrete decoder states in turn (state concrete per call; bytes and size counter symbolic).
 #[kani::proof]
+#[kani::stub(tracing::callsite::DefaultCallsite::register, stub_tracing_register)]
 #[kani::unwind(6)]
 fn c01_step_size_line_b0() {
     step_lemma(St::Size, 0);
@@ -448,6 +450,7 @@ fn c01_step_size_line_b0() {
     step_lemma(St::SizeLf, 0);
 }
 #[kani::proof]
+#[kani::stub(tracing::callsite::DefaultCallsite::register, stub_tracing_register)]
 #[kani::unwind(6)]
 fn c01_step_body_b0() {
     step_lemma(St::Body, 0);
@@ -455,6 +458,7 @@ fn c01_step_body_b0() {
     step_lemma(St::BodyLf, 0);
 }
 #[kani::proof]
+#[kani::stub(tracing::callsite::DefaultCallsite::register, stub_tracing_register)]
 #[kani::unwind(6)]
 fn c01_step_end_b0() {
     step_lemma(St::EndCr, 0);
@@ -462,6 +466,7 @@ fn c01_step_end_b0() {
     step_lemma(St::End, 0);
 }
 #[kani::proof]
+#[kani::stub(tracing::callsite::DefaultCallsite::register, stub_tracing_register)]
 #[kani::unwind(6)]
 fn c01_step_size_line_b1() {
     step_lemma(St::Size, 1);
@@ -470,6 +475,7 @@ fn c01_step_size_line_b1() {
     step_lemma(St::SizeLf, 1);
 }
 #[kani::proof]
+#[kani::stub(tracing::callsite::DefaultCallsite::register, stub_tracing_register)]
 #[kani::unwind(6)]
 fn c01_step_body_b1() {
     step_lemma(St::Body, 1);
@@ -477,6 +483,7 @@ fn c01_step_body_b1() {
     step_lemma(St::BodyLf, 1);
 }
 #[kani::proof]
+#[kani::stub(tracing::callsite::DefaultCallsite::register, stub_tracing_register)]
 #[kani::unwind(6)]
 fn c01_step_end_b1() {
     step_lemma(St::EndCr, 1);
@@ -484,6 +491,7 @@ fn c01_step_end_b1() {
     step_lemma(St::End, 1);
 }
 #[kani::proof]
+#[kani::stub(tracing::callsite::DefaultCallsite::register, stub_tracing_register)]
 #[kani::unwind(6)]
 fn c01_step_size_line_b2() {
     step_lemma(St::Size, 2);
@@ -492,6 +500,7 @@ fn c01_step_size_line_b2() {
     step_lemma(St::SizeLf, 2);
 }
 #[kani::proof]
+#[kani::stub(tracing::callsite::DefaultCallsite::register, stub_tracing_register)]
 #[kani::unwind(6)]
 fn c01_step_body_b2() {
     step_lemma(St::Body, 2);
@@ -499,6 +508,7 @@ fn c01_step_body_b2() {
     step_lemma(St::BodyLf, 2);
 }
 #[kani::proof]
+#[kani::stub(tracing::callsite::DefaultCallsite::register, stub_tracing_register)]
 #[kani::unwind(6)]
 fn c01_step_end_b2() {
     step_lemma(St::EndCr, 2);
@@ -506,6 +516,7 @@ fn c01_step_end_b2() {
     step_lemma(St::End, 2);
 }
 #[kani::proof]
+#[kani::stub(tracing::callsite::DefaultCallsite::register, stub_tracing_register)]
 #[kani::unwind(6)]
 fn c01_step_size_line_b3_t() {
     step_lemma(St::Size, 3);
@@ -514,6 +525,7 @@ fn c01_step_size_line_b3_t() {
     step_lemma(St::SizeLf, 3);
 }
 #[kani::proof]
+#[kani::stub(tracing::callsite::DefaultCallsite::register, stub_tracing_register)]
 #[kani::unwind(6)]
 fn c01_step_body_b3_t() {
     step_lemma(St::Body, 3);
@@ -521,6 +533,7 @@ fn c01_step_body_b3_t() {
     step_lemma(St::BodyLf, 3);
 }
 #[kani::proof]
+#[kani::stub(tracing::callsite::DefaultCallsite::register, stub_tracing_register)]
 #[kani::unwind(6)]
 fn c01_step_end_b3_t() {
     step_lemma(St::EndCr, 3);
@@ -528,6 +541,7 @@ fn c01_step_end_b3_t() {
     step_lemma(St::End, 3);
 }
 #[kani::proof]
+#[kani::stub(tracing::callsite::DefaultCallsite::register, stub_tracing_register)]
 #[kani::unwind(6)]
 fn c01_step_size_line_b4_t() {
     step_lemma(St::Size, 4);
@@ -536,6 +550,7 @@ fn c01_step_size_line_b4_t() {
     step_lemma(St::SizeLf, 4);
 }
 #[kani::proof]
+#[kani::stub(tracing::callsite::DefaultCallsite::register, stub_tracing_register)]
 #[kani::unwind(6)]
 fn c01_step_body_b4_t() {
     step_lemma(St::Body, 4);
@@ -543,6 +558,7 @@ fn c01_step_body_b4_t() {
     step_lemma(St::BodyLf, 4);
 }
 #[kani::proof]
+#[kani::stub(tracing::callsite::DefaultCallsite::register, stub_tracing_register)]
 #[kani::unwind(6)]
 fn c01_step_end_b4_t() {
     step_lemma(St::EndCr, 4);
@@ -550,6 +566,7 @@ fn c01_step_end_b4_t() {
     step_lemma(St::End, 4);
 }
 #[kani::proof]
+#[kani::stub(tracing::callsite::DefaultCallsite::register, stub_tracing_register)]
 #[kani::unwind(7)]
 fn c01_decode_size_line_b0() {
     decode_lemma(St::Size, 0);
@@ -558,6 +575,7 @@ fn c01_decode_size_line_b0() {
     decode_lemma(St::SizeLf, 0);
 }
 #[kani::proof]
+#[kani::stub(tracing::callsite::DefaultCallsite::register, stub_tracing_register)]
 #[kani::unwind(7)]
 fn c01_decode_body_b0() {
     decode_lemma(St::Body, 0);
@@ -565,6 +583,7 @@ fn c01_decode_body_b0() {
     decode_lemma(St::BodyLf, 0);
 }
 #[kani::proof]
+#[kani::stub(tracing::callsite::DefaultCallsite::register, stub_tracing_register)]
 #[kani::unwind(7)]
 fn c01_decode_end_b0() {
     decode_lemma(St::EndCr, 0);
@@ -572,6 +591,7 @@ fn c01_decode_end_b0() {
     decode_lemma(St::End, 0);
 }
 #[kani::proof]
+#[kani::stub(tracing::callsite::DefaultCallsite::register, stub_tracing_register)]
 #[kani::unwind(7)]
 fn c01_decode_size_line_b1() {
     decode_lemma(St::Size, 1);
@@ -580,12 +600,14 @@ fn c01_decode_size_line_b1() {
     decode_lemma(St::SizeLf, 1);
 }
 #[kani::proof]
+#[kani::stub(tracing::callsite::DefaultCallsite::register, stub_tracing_register)]
 #[kani::unwind(7)]
 fn c01_decode_body_b1() {
     decode_lemma(St::BodyCr, 1);
     decode_lemma(St::BodyLf, 1);
 }
 #[kani::proof]
+#[kani::stub(tracing::callsite::DefaultCallsite::register, stub_tracing_register)]
 #[kani::unwind(7)]
 fn c01_decode_end_b1() {
     decode_lemma(St::EndCr, 1);
@@ -593,6 +615,7 @@ fn c01_decode_end_b1() {
     decode_lemma(St::End, 1);
 }
 #[kani::proof]
+#[kani::stub(tracing::callsite::DefaultCallsite::register, stub_tracing_register)]
 #[kani::unwind(7)]
 fn c01_decode_body_concrete_sizes() {
     decode_lemma_with(St::Body, 1, None, Some(1));
@@ -603,6 +626,7 @@ fn c01_decode_body_concrete_sizes() {
 }
 // two loop iterations of decode: concrete first byte (one per edge of the grammar), symbolic second byte
 #[kani::proof]
+#[kani::stub(tracing::callsite::DefaultCallsite::register, stub_tracing_register)]
 #[kani::unwind(7)]
 fn c01_decode2_edges_part1() {
     decode_lemma_with(St::Size, 2, Some(b'1'), Some(0x0));
@@ -612,6 +636,7 @@ fn c01_decode2_edges_part1() {
 }
 // two loop iterations of decode: concrete first byte (one per edge of the grammar), symbolic second byte
 #[kani::proof]
+#[kani::stub(tracing::callsite::DefaultCallsite::register, stub_tracing_register)]
 #[kani::unwind(7)]
 fn c01_decode2_edges_part2() {
     decode_lemma_with(St::Size, 2, Some(b'\r'), None);
@@ -621,6 +646,7 @@ fn c01_decode2_edges_part2() {
 }
 // two loop iterations of decode: concrete first byte (one per edge of the grammar), symbolic second byte
 #[kani::proof]
+#[kani::stub(tracing::callsite::DefaultCallsite::register, stub_tracing_register)]
 #[kani::unwind(7)]
 fn c01_decode2_edges_part3() {
     decode_lemma_with(St::SizeLws, 2, Some(b'\r'), None);
@@ -630,6 +656,7 @@ fn c01_decode2_edges_part3() {
 }
 // two loop iterations of decode: concrete first byte (one per edge of the grammar), symbolic second byte
 #[kani::proof]
+#[kani::stub(tracing::callsite::DefaultCallsite::register, stub_tracing_register)]
 #[kani::unwind(7)]
 fn c01_decode2_edges_part4() {
     decode_lemma_with(St::SizeLf, 2, Some(b'\n'), Some(0x5));
@@ -639,46 +666,54 @@ fn c01_decode2_edges_part4() {
     decode_lemma_with(St::EndLf, 2, Some(b'\n'), None);
 }
 #[kani::proof]
+#[kani::stub(tracing::callsite::DefaultCallsite::register, stub_tracing_register)]
 #[kani::unwind(6)]
 fn c01_length_and_eof_b0() {
     length_lemma(0);
     eof_lemma(0);
 }
 #[kani::proof]
+#[kani::stub(tracing::callsite::DefaultCallsite::register, stub_tracing_register)]
 #[kani::unwind(6)]
 fn c01_length_and_eof_b1() {
     length_lemma(1);
     eof_lemma(1);
 }
 #[kani::proof]
+#[kani::stub(tracing::callsite::DefaultCallsite::register, stub_tracing_register)]
 #[kani::unwind(6)]
 fn c01_length_and_eof_b2() {
     length_lemma(2);
     eof_lemma(2);
 }
 #[kani::proof]
+#[kani::stub(tracing::callsite::DefaultCallsite::register, stub_tracing_register)]
 #[kani::unwind(6)]
 fn c01_length_and_eof_b3_t() {
     length_lemma(3);
     eof_lemma(3);
 }
 #[kani::proof]
+#[kani::stub(tracing::callsite::DefaultCallsite::register, stub_tracing_register)]
 #[kani::unwind(6)]
 fn c01_length_and_eof_b4_t() {
     length_lemma(4);
     eof_lemma(4);
 }
 #[kani::proof]
+#[kani::stub(tracing::callsite::DefaultCallsite::register, stub_tracing_register)]
 #[kani::unwind(7)]
 fn c01_whole_run_b2_cut1_t() {
     whole_run(2, 1);
 }
 #[kani::proof]
+#[kani::stub(tracing::callsite::DefaultCallsite::register, stub_tracing_register)]
 #[kani::unwind(7)]
 fn c01_whole_run_b3_cut1_t() {
     whole_run(3, 1);
 }
 #[kani::proof]
+#[kani::stub(tracing::callsite::DefaultCallsite::register, stub_tracing_register)]
 #[kani::unwind(7)]
 fn c01_whole_run_b3_cut2_t() {
     whole_run(3, 2);
